@@ -6,15 +6,17 @@
    as one JSON line; the harness replays them on the real runtime. *)
 EXTENDS Terms, Json
 
-CONSTANTS MaxSize, TapeLen, MaxCalls, Budget, WithRecv
+CONSTANTS MaxSize, TapeLen, MaxCalls, Budget, WithRecv,
+          Fam      \* "size": every term up to MaxSize; "nest" / "nestfull": the nested-loop family T_nest of Terms.tla
 
-AllTerms == TermsUpTo(MaxSize, WithRecv)
+AllTerms == CASE Fam = "nest" -> NestedLoopTerms(FALSE) [] Fam = "nestfull" -> NestedLoopTerms(TRUE) [] OTHER -> TermsUpTo(MaxSize, WithRecv)
 
 VARIABLES term, tape0, g, w, calls, obs
 vars == <<term, tape0, g, w, calls, obs>>
 
 Init == /\ term \in AllTerms
-        /\ tape0 \in Tapes(TapeLen)
+        \* a tape shorter than TapeLen behaves like the same tape padded with FALSE: T_nest takes full-length tapes only
+        /\ tape0 \in (IF Fam = "size" THEN Tapes(TapeLen) ELSE [1..TapeLen -> BOOLEAN])
         /\ w = W0(tape0, Budget)
         /\ g = NewGen(term, w)
         /\ calls = 0
